@@ -32,6 +32,16 @@ def opC04 : List String → Option String
         (List.range hb).foldl (fun acc by_ => (List.range wb).foldl (fun acc bx =>
           (List.range 64).foldl (fun acc k => c03fnv16 acc (c04Coef seed ci by_ bx k)) acc) acc) 14695981039346656037)
       some s!"skip {hexOf bytes} {",".intercalate (hashes.map toString)}"
+  | ["susp", _, _, hex] => do
+    let bytes ← hexBytes? hex
+    match decode bytes with
+    | .error e => some s!"err {e}"
+    | .ok r => some (t81Line r)
+  | ["suspall", _, hex] => do
+    let bytes ← hexBytes? hex
+    match decode bytes with
+    | .error e => some s!"err {e}"
+    | .ok r => some (t81Line r)
   | ["t81c", _, hex] => do
     let bytes ← hexBytes? hex
     match decode bytes with
